@@ -20,7 +20,7 @@ RUN_FILES = ["Run/C13Run.v", "Run/C13Oracle.v"]
 RULE = ("file_formats[bin|raw|bk_wav|bk_turbo_wav] of the real code on: an image of every length 0-300 (all four containers), "
         "images summing to k*65535, k*65536 and neighbours (257 x 0xFF ...), seeded random images up to 4096 bytes, bases 0, 0o1000, "
         "0o177776, 0o177777 and out-of-range values, tape names of 0-20 bytes; the returned bytes are compared with the Coq model "
-        "(byte for byte, or by a (length, sum, sum of prefix sums, sum of those) triple for large outputs) and decoded by the Spec readers "
+        "(byte for byte, or by a (length, sum, sum of prefix sums, sum of those) for large outputs) and decoded by the Spec readers "
         "(parse_bin / parse_wav + demod + cksum_spec) inside coqc.  Paths: os.path/resolve_relative_path on generated path strings, "
         "every make_xxx directive x path form x tape-name form x source-name form through the assembler (Compiler.emitted_files), "
         "and real `python -m pdpy11` runs in scratch directories for every output selector (files found = files expected, "
